@@ -3972,6 +3972,17 @@ void Interpreter::register_destructor_call(
         }
     }
 
+    // What is registered here is a newly constructed object.  Blocks have no
+    // variable scope of their own, so when a declaration is executed again
+    // (loop body, sibling block) its member variables ("p.first") are
+    // copy-assigned over the ones left by the previous execution, and
+    // Variable::operator= leaves destructor_called alone: the flag of the
+    // previous, already destroyed object would make call_destructor() skip
+    // the new one.
+    if (Variable *registered_var = find_variable(var_name)) {
+        registered_var->destructor_called = false;
+    }
+
     // 最後に自分自身を登録（これにより、メンバーが先に破壊される）
     destructor_stacks_.back().push_back(
         std::make_pair(var_name, struct_type_name));
